@@ -540,6 +540,7 @@ def drive(args, check_id, cfg, tier, seed, repo, tmp, t_start):
     runs = sum(r.get("runs", 0) for r in results)
     steps = sum(r.get("steps", 0) for r in results)
     inconclusive = sum(r.get("inconclusive", 0) for r in results)
+    stalled = sum(r.get("stalled_runs", 0) for r in results)
     nontrivial = sum(r.get("nontrivial_runs", 0) for r in results)
     rechecked = sum(r.get("determinism_rechecks", 0) for r in results)
     sim_time = sum(r.get("sim_time_ns", 0) for r in results)
@@ -592,6 +593,7 @@ def drive(args, check_id, cfg, tier, seed, repo, tmp, t_start):
         faults_fired=faults,
         probes=probes,
         inconclusive_runs=inconclusive,
+        stalled_runs=stalled,
         determinism_rechecks=rechecked,
         workers=nworkers,
         base_seed=seed,
@@ -653,6 +655,8 @@ def drive(args, check_id, cfg, tier, seed, repo, tmp, t_start):
     log("%s tier=%s seed=%d: %d runs, %d distinct non-trivial signatures, %d steps, %.1fs, faults=%s probes=%s" % (
         check_id, tier, seed, runs, len(sigs), steps, wall, json.dumps(faults, sort_keys=True),
         json.dumps(probes, sort_keys=True)))
+    if stalled:
+        log("note: %d of %d runs stalled (a goroutine waited for a mutex whose holder was parked at a yield) and count as inconclusive" % (stalled, runs))
     for e in known:
         if e.get("status") == "known":
             log("KNOWN-FINDING: property=%s %s (signature %s, hit %d times in this run)" % (
